@@ -234,7 +234,8 @@ func loadProgram(tmp string, hs []Harness) *loaded {
 		}
 		overlay[k] = b
 	}
-	cfg := &packages.Config{Mode: packages.LoadAllSyntax, Dir: repoDir, Overlay: overlay, Env: goEnv()}
+	// math_big_pure_go: math/big's arithmetic kernels have pure Go bodies instead of assembly stubs
+	cfg := &packages.Config{Mode: packages.LoadAllSyntax, Dir: repoDir, Overlay: overlay, Env: goEnv(), BuildFlags: []string{"-tags=math_big_pure_go"}}
 	seen := map[string]bool{}
 	var pats []string
 	for _, h := range hs {
@@ -266,7 +267,7 @@ func loadProgram(tmp string, hs []Harness) *loaded {
 		switch p {
 		case "io", "github.com/google/btree", "encoding/binary", "bytes", "encoding/base64", "context",
 			"golang.org/x/sync/errgroup", "io/fs", "math", "math/bits", "strings", "sort", "slices", "maps", "cmp", "iter",
-			"unicode/utf8", "time", "container/heap", "container/list", "path", "strconv":
+			"unicode/utf8", "time", "container/heap", "container/list", "path", "strconv", "math/big":
 			return true
 		}
 		return false
